@@ -13,6 +13,7 @@ from spverif.core.util import attempt, exc_sig
 from spverif.core import repo as repo_mod
 from spverif.ref.models import seq_next
 
+THOROUGH_SCALE = 12
 ID = "C19"
 LEVEL = "exploration"
 SHARDS = {"quick": 1, "thorough": 8}
